@@ -179,8 +179,16 @@ static void dump_item(const Message & m, const String & fn, uint32 tc, uint32 i,
       break;
       default:
       {
-         const void * d = NULL; uint32 nb = 0;
-         if (m.FindData(fn, B_ANY_TYPE, i, &d, &nb).IsOK()) o += hex((const uint8 *)d, nb); else o += "?";
+         ConstFlatCountableRef fc;
+         if ((m.FindFlat(fn, i, fc).IsOK())&&(fc()))
+         {
+            const uint32 fs = fc()->FlattenedSize();
+            uint8 * p = (uint8 *) malloc(fs ? fs : 0);
+            fc()->FlattenToBytes(p, fs);
+            o += hex(p, fs);
+            free(p);
+         }
+         else o += "?";
       }
       break;
    }
@@ -499,7 +507,7 @@ static AbstractMessageIOGatewayRef make_slave(uint32 which)
 static AbstractMessageIOGatewayRef make_gateway(const GwSpec & s, bool & packetMode, uint32 & mtu, bool asPeer = false)
 {
    packetMode = false; mtu = 0;
-   if (s.kind == "mio")
+   if ((s.kind == "mio")||(s.kind == "mioz"))
    {
       MessageIOGateway * g = new MessageIOGateway();
       g->SetMaxIncomingMessageSize(s.U(0, MUSCLE_NO_LIMIT));
@@ -555,7 +563,13 @@ static AbstractMessageIOGatewayRef make_gateway(const GwSpec & s, bool & packetM
 }
 
 // what a sender gateway of the same kind puts on the wire for (msg)
+static void sender_bytes_multi(const GwSpec & s, const std::vector<MessageRef> & msgs, std::vector<Bytes> & out);
 static void sender_bytes(const GwSpec & s, const MessageRef & msg, std::vector<Bytes> & out)
+{
+   std::vector<MessageRef> v; v.push_back(msg);
+   sender_bytes_multi(s, v, out);
+}
+static void sender_bytes_multi(const GwSpec & s, const std::vector<MessageRef> & msgs, std::vector<Bytes> & out)
 {
    bool pm; uint32 mtu;
    AbstractMessageIOGatewayRef g = make_gateway(s, pm, mtu, true);   // for ws: the peer of the receiver under test
@@ -564,8 +578,11 @@ static void sender_bytes(const GwSpec & s, const MessageRef & msg, std::vector<B
    {
       PacketIO pio(mtu);
       g()->SetDataIO(DummyDataIORef(pio));
-      (void) g()->AddOutgoingMessage(msg);
-      for (int i=0; (i<1000)&&(g()->HasBytesToOutput()); i++) if (g()->DoOutput().GetByteCount() <= 0) break;
+      for (size_t m=0; m<msgs.size(); m++)
+      {
+         (void) g()->AddOutgoingMessage(msgs[m]);
+         for (int i=0; (i<1000)&&(g()->HasBytesToOutput()); i++) if (g()->DoOutput().GetByteCount() <= 0) break;
+      }
       out = pio._packets;
       g()->SetDataIO(DataIORef());
    }
@@ -573,10 +590,13 @@ static void sender_bytes(const GwSpec & s, const MessageRef & msg, std::vector<B
    {
       ChunkIO cio;
       g()->SetDataIO(DummyDataIORef(cio));
-      (void) g()->AddOutgoingMessage(msg);
-      for (int i=0; (i<1000)&&(g()->HasBytesToOutput()); i++) if (g()->DoOutput().GetByteCount() <= 0) break;
-      if (s.kind == "ptun" || s.kind == "mptun") {/* stream DataIO under a tunnel: every Write() was one packet; keep as one chunk each */}
-      out.push_back(cio._written);
+      for (size_t m=0; m<msgs.size(); m++)
+      {
+         cio._written.clear();
+         (void) g()->AddOutgoingMessage(msgs[m]);
+         for (int i=0; (i<1000)&&(g()->HasBytesToOutput()); i++) if (g()->DoOutput().GetByteCount() <= 0) break;
+         out.push_back(cio._written);   // one chunk per Message
+      }
       g()->SetDataIO(DataIORef());
    }
 }
@@ -627,7 +647,7 @@ static void run_gw(int k, const GwSpec & s, const std::vector<Bytes> & segs, std
    Feed f(s);
    if (f.gw() == NULL) {o << k << " badgateway\n"; return;}
    long long total = 0; for (size_t i=0; i<segs.size(); i++) total += (long long) segs[i].size();
-   MessageIOGateway * mio = (s.kind == "mio" || s.kind == "tmpl") ? static_cast<MessageIOGateway *>(f.gw()) : NULL;
+   MessageIOGateway * mio = (s.kind == "mio" || s.kind == "mioz" || s.kind == "tmpl") ? static_cast<MessageIOGateway *>(f.gw()) : NULL;
    const uint32 maxIn = mio ? mio->_maxIncomingMessageSize : MUSCLE_NO_LIMIT;
    uint32 delivered = 0;
    {
@@ -805,6 +825,17 @@ int main(int, char **)
       {
          GwSpec s; s.kind = head[1]; for (size_t i=2; i<head.size(); i++) s.a.push_back(head[i]);
          run_gw(k, s, segs, o, orc);
+      }
+      else if ((t == "emit")&&(head.size() > 1))
+      {
+         // generator support: what a sender gateway of this kind puts on the wire for the given flattened Messages
+         GwSpec s; s.kind = head[1]; for (size_t i=2; i<head.size(); i++) s.a.push_back(head[i]);
+         std::vector<MessageRef> msgs;
+         for (size_t i=0; i<segs.size(); i++) {MessageRef m = GetMessageFromPool(&segs[i][0], (uint32) segs[i].size()); if (m()) msgs.push_back(m);}
+         std::vector<Bytes> wire; sender_bytes_multi(s, msgs, wire);
+         o << k << " w";
+         for (size_t i=0; i<wire.size(); i++) o << (i ? ";" : " ") << (wire[i].empty() ? "" : hex(&wire[i][0], wire[i].size()));
+         o << "\n";
       }
       else o << k << " badtarget\n";
       alarm(0);
